@@ -74,7 +74,9 @@ def rebuilt(tree):
 def summarise(result, root):
     """(fitness, failing trees, suggestion) -> comparable summary string."""
     fitness, failing, _sugg = result
-    fails = sorted((repr(node_path(f.tree, root)), type(f.cause).__name__) for f in failing)
+    # a failing part is identified by its position in the tree it belongs to (a cache hit may hand out the nodes
+    # of a structurally identical tree evaluated earlier: same positions, other objects - that is not a difference)
+    fails = sorted((repr(node_path(f.tree, f.tree.get_root())), type(f.cause).__name__) for f in failing)
     return "%r|%s" % (fitness, fails)
 
 
